@@ -73,6 +73,32 @@ def ensure_mirror():
     return _mirror
 
 
+def build_tools(san="asan"):
+    """unber / enber built from the mirror's sources with sanitizers (the project's own binaries are not instrumented)"""
+    m = ensure_mirror()
+    h = hashlib.sha256()
+    for f in ("asn1-tools/unber/unber.c", "asn1-tools/unber/libasn1_unber_tool.c", "asn1-tools/unber/libasn1_unber_tool.h", "asn1-tools/enber/enber.c"):
+        h.update(open(os.path.join(m["root"], f), "rb").read())
+    h.update(m["stamp"].encode())
+    d = os.path.join(SCRATCH, "tools-%s-%s" % (san, h.hexdigest()[:16]))
+    with locked("tools"):
+        if not os.path.exists(os.path.join(d, "ok")):
+            shutil.rmtree(d, ignore_errors=True)
+            os.makedirs(d)
+            cc, cf, lf = SAN_FLAGS[san]
+            inc = ["-I" + os.path.join(m["root"], x) for x in ("", "libasn1common", "libasn1parser", "skeletons", "asn1-tools/unber")]
+            common = glob.glob(os.path.join(m["root"], "libasn1common", "*.c"))
+            for tool, srcs in (("unber", ["asn1-tools/unber/unber.c", "asn1-tools/unber/libasn1_unber_tool.c"]), ("enber", ["asn1-tools/enber/enber.c"])):
+                r = sh(cc + cf + lf + ["-DHAVE_CONFIG_H"] + inc + [os.path.join(m["root"], x) for x in srcs] + common + ["-o", os.path.join(d, tool), "-lm"])
+                if r.returncode:
+                    raise Infra("cannot build %s: %s" % (tool, r.stdout[-1500:]))
+            open(os.path.join(d, "ok"), "w").write("1")
+            for old in glob.glob(os.path.join(SCRATCH, "tools-%s-*" % san)):
+                if old != d:
+                    shutil.rmtree(old, ignore_errors=True)
+    return {"unber": os.path.join(d, "unber"), "enber": os.path.join(d, "enber")}
+
+
 # ---- build of generated code + driver ----------------------------------------------
 SAN_FLAGS = {
     "plain": (["gcc"], ["-O1", "-g", "-w", "-std=gnu99"], []),
